@@ -158,7 +158,7 @@ def pending (w : World) (i : Nat) : Bytes :=
   | some s => s.unread ++ s.queue.flatten
   | none => []
 
-theorem pending_set (w : World) (m : String → Option Pair) (i j : Nat) (s s' : Sess) (hj : w.sess[j]? = some s) :
+theorem pending_set (w : World) (m : Reg) (i j : Nat) (s s' : Sess) (hj : w.sess[j]? = some s) :
     pending { w with sess := setSess w.sess j s', metrics := m } i
       = if i = j then s'.unread ++ s'.queue.flatten else pending w i := by
   have hlt : j < w.sess.length := by
@@ -170,7 +170,7 @@ theorem pending_set (w : World) (m : String → Option Pair) (i j : Nat) (s s' :
   · subst h; simp [hlt]
   · simp [h, List.getElem?_set_ne (Ne.symm h)]
 
-theorem pending_metrics (w : World) (m : String → Option Pair) (i : Nat) :
+theorem pending_metrics (w : World) (m : Reg) (i : Nat) :
     pending { w with metrics := m } i = pending w i := rfl
 
 theorem pending_of (w : World) (i : Nat) (s : Sess) (h : w.sess[i]? = some s) : pending w i = s.unread ++ s.queue.flatten := by
@@ -268,28 +268,28 @@ theorem run_stream (w : World) (ops : List Acct.Op) (i : Nat) :
 
 /-! ## the registry -/
 
-def upValM (m : String → Option Pair) (u : String) : Int := match m u with | some p => p.1.value | none => 0
-def downValM (m : String → Option Pair) (u : String) : Int := match m u with | some p => p.2.value | none => 0
+def upValM (m : Reg) (u : String) : Int := match m.get u with | some p => p.1.value | none => 0
+def downValM (m : Reg) (u : String) : Int := match m.get u with | some p => p.2.value | none => 0
 
 /-- value of `u`'s `UploadBytes` / `DownloadBytes` counter (0 when not registered) -/
 def upVal (w : World) (u : String) : Int := upValM w.metrics u
 def downVal (w : World) (u : String) : Int := downValM w.metrics u
 
-theorem register_mono (m : String → Option Pair) (u v : String) (h : (m v).isSome = true) : (register m u v).isSome = true := by
+theorem register_mono (m : Reg) (u v : String) (h : (m.get v).isSome = true) : ((register m u).get v).isSome = true := by
   unfold register
-  cases hm : m u with
+  cases hm : m.get u with
   | some p => simpa using h
   | none => simp only [setMetrics]; split <;> simp [h]
 
-theorem register_self (m : String → Option Pair) (u : String) : (register m u u).isSome = true := by
+theorem register_self (m : Reg) (u : String) : ((register m u).get u).isSome = true := by
   unfold register
-  cases hm : m u with
+  cases hm : m.get u with
   | some p => simp [hm]
   | none => simp [setMetrics]
 
-theorem register_up (m : String → Option Pair) (u v : String) : upValM (register m u) v = upValM m v := by
+theorem register_up (m : Reg) (u v : String) : upValM (register m u) v = upValM m v := by
   unfold register
-  cases h : m u with
+  cases h : m.get u with
   | some p => rfl
   | none =>
     simp only
@@ -298,9 +298,9 @@ theorem register_up (m : String → Option Pair) (u v : String) : upValM (regist
     · subst hv; simp [h, Counter.new]
     · simp [hv]
 
-theorem register_down (m : String → Option Pair) (u v : String) : downValM (register m u) v = downValM m v := by
+theorem register_down (m : Reg) (u v : String) : downValM (register m u) v = downValM m v := by
   unfold register
-  cases h : m u with
+  cases h : m.get u with
   | some p => rfl
   | none =>
     simp only
@@ -312,24 +312,24 @@ theorem register_down (m : String → Option Pair) (u v : String) : downValM (re
 theorem add_value (c : Counter) (d now : Int) : (Counter.add c d now).value = c.value + d := by
   unfold Counter.add; exact addWithTime_value c d _ now
 
-theorem addUp_mono (m : String → Option Pair) (u v : String) (n : Nat) (now : Int) (h : (m v).isSome = true) :
-    (addUp m u n now v).isSome = true := by
+theorem addUp_mono (m : Reg) (u v : String) (n : Nat) (now : Int) (h : (m.get v).isSome = true) :
+    ((addUp m u n now).get v).isSome = true := by
   unfold addUp
-  cases hm : m u with
+  cases hm : m.get u with
   | some p => simp only [setMetrics]; split <;> simp [h]
   | none => simpa using h
 
-theorem addDown_mono (m : String → Option Pair) (u v : String) (n : Nat) (now : Int) (h : (m v).isSome = true) :
-    (addDown m u n now v).isSome = true := by
+theorem addDown_mono (m : Reg) (u v : String) (n : Nat) (now : Int) (h : (m.get v).isSome = true) :
+    ((addDown m u n now).get v).isSome = true := by
   unfold addDown
-  cases hm : m u with
+  cases hm : m.get u with
   | some p => simp only [setMetrics]; split <;> simp [h]
   | none => simpa using h
 
-theorem addUp_up (m : String → Option Pair) (u v : String) (n : Nat) (now : Int) (h : (m u).isSome = true) :
+theorem addUp_up (m : Reg) (u v : String) (n : Nat) (now : Int) (h : (m.get u).isSome = true) :
     upValM (addUp m u n now) v = upValM m v + (if u = v then (n : Int) else 0) := by
   unfold addUp
-  cases hm : m u with
+  cases hm : m.get u with
   | none => simp [hm] at h
   | some p =>
     simp only
@@ -338,10 +338,10 @@ theorem addUp_up (m : String → Option Pair) (u v : String) (n : Nat) (now : In
     · subst hv; simp [hm, add_value]
     · simp [hv, Ne.symm hv]
 
-theorem addUp_down (m : String → Option Pair) (u v : String) (n : Nat) (now : Int) :
+theorem addUp_down (m : Reg) (u v : String) (n : Nat) (now : Int) :
     downValM (addUp m u n now) v = downValM m v := by
   unfold addUp
-  cases hm : m u with
+  cases hm : m.get u with
   | none => rfl
   | some p =>
     simp only
@@ -350,10 +350,10 @@ theorem addUp_down (m : String → Option Pair) (u v : String) (n : Nat) (now : 
     · subst hv; simp [hm]
     · simp [hv]
 
-theorem addDown_down (m : String → Option Pair) (u v : String) (n : Nat) (now : Int) (h : (m u).isSome = true) :
+theorem addDown_down (m : Reg) (u v : String) (n : Nat) (now : Int) (h : (m.get u).isSome = true) :
     downValM (addDown m u n now) v = downValM m v + (if u = v then (n : Int) else 0) := by
   unfold addDown
-  cases hm : m u with
+  cases hm : m.get u with
   | none => simp [hm] at h
   | some p =>
     simp only
@@ -362,10 +362,10 @@ theorem addDown_down (m : String → Option Pair) (u v : String) (n : Nat) (now 
     · subst hv; simp [hm, add_value]
     · simp [hv, Ne.symm hv]
 
-theorem addDown_up (m : String → Option Pair) (u v : String) (n : Nat) (now : Int) :
+theorem addDown_up (m : Reg) (u v : String) (n : Nat) (now : Int) :
     upValM (addDown m u n now) v = upValM m v := by
   unfold addDown
-  cases hm : m u with
+  cases hm : m.get u with
   | none => rfl
   | some p =>
     simp only
@@ -380,7 +380,7 @@ theorem addDown_up (m : String → Option Pair) (u v : String) (n : Nat) (now : 
     block has registered counters -/
 def Inv (w : World) : Prop :=
   ∀ (i : Nat) (s : Sess), w.sess[i]? = some s →
-    (s.block = none → s.queue = [] ∧ s.unread = []) ∧ (∀ u : String, s.block = some u → (w.metrics u).isSome = true)
+    (s.block = none → s.queue = [] ∧ s.unread = []) ∧ (∀ u : String, s.block = some u → (w.metrics.get u).isSome = true)
 
 theorem Inv_empty (pol : String → Option Policy) : Inv (World.empty pol) := by
   intro i s h; simp [World.empty] at h
@@ -390,11 +390,11 @@ theorem sess_lt (w : World) (j : Nat) (s : Sess) (hj : w.sess[j]? = some s) : j 
   · exact h
   · rw [List.getElem?_eq_none h] at hj; cases hj
 
-theorem Inv_update (w : World) (j : Nat) (s s' : Sess) (m' : String → Option Pair) (hi : Inv w)
+theorem Inv_update (w : World) (j : Nat) (s s' : Sess) (m' : Reg) (hi : Inv w)
     (hj : w.sess[j]? = some s)
     (h1 : s'.block = none → s'.queue = [] ∧ s'.unread = [])
-    (h2 : ∀ u, s'.block = some u → (m' u).isSome = true)
-    (hm : ∀ u, (w.metrics u).isSome = true → (m' u).isSome = true) :
+    (h2 : ∀ u, s'.block = some u → (m'.get u).isSome = true)
+    (hm : ∀ u, (w.metrics.get u).isSome = true → (m'.get u).isSome = true) :
     Inv { w with sess := setSess w.sess j s', metrics := m' } := by
   intro i t ht
   have hlt := sess_lt w j s hj
@@ -406,8 +406,8 @@ theorem Inv_update (w : World) (j : Nat) (s s' : Sess) (m' : String → Option P
   · simp only [setSess, List.getElem?_set_ne (Ne.symm h)] at ht
     exact ⟨(hi i t ht).1, fun u hu => hm u ((hi i t ht).2 u hu)⟩
 
-theorem Inv_metrics (w : World) (m' : String → Option Pair) (hi : Inv w)
-    (hm : ∀ u, (w.metrics u).isSome = true → (m' u).isSome = true) : Inv { w with metrics := m' } := by
+theorem Inv_metrics (w : World) (m' : Reg) (hi : Inv w)
+    (hm : ∀ u, (w.metrics.get u).isSome = true → (m'.get u).isSome = true) : Inv { w with metrics := m' } := by
   intro i t ht
   exact ⟨(hi i t ht).1, fun u hu => hm u ((hi i t ht).2 u hu)⟩
 
@@ -490,7 +490,7 @@ theorem run_inv (w : World) (ops : List Acct.Op) (hi : Inv w) : Inv (run w ops).
 
 /-! ## ownership is stable -/
 
-theorem owner_set (w : World) (m : String → Option Pair) (i j : Nat) (s s' : Sess) (hj : w.sess[j]? = some s) :
+theorem owner_set (w : World) (m : Reg) (i j : Nat) (s s' : Sess) (hj : w.sess[j]? = some s) :
     owner { w with sess := setSess w.sess j s', metrics := m } i = if i = j then s'.block else owner w i := by
   have hlt := sess_lt w j s hj
   unfold owner setSess
@@ -719,7 +719,7 @@ theorem step_dead (w : World) (o : Acct.Op) (i : Nat) (hd : Dead w i) :
     · split
       · exact ⟨⟨s, hs, hst, hcr, hq, hu, hstat⟩, by simp [bytesRead], by simp, by simp [bytesQueued]⟩
       · rename_i t ht
-        have hkeep : ∀ (t' : Sess) (m : String → Option Pair), ({ w with sess := setSess w.sess j t', metrics := m } : World).sess[i]? = some s := by
+        have hkeep : ∀ (t' : Sess) (m : Reg), ({ w with sess := setSess w.sess j t', metrics := m } : World).sess[i]? = some s := by
           intro t' m; simp only [setSess]; rw [List.getElem?_set_ne hij]; exact hs
         unfold inputOn
         split
@@ -744,7 +744,7 @@ theorem step_dead (w : World) (o : Acct.Op) (i : Nat) (hd : Dead w i) :
     · split
       · exact ⟨⟨s, hs, hst, hcr, hq, hu, hstat⟩, by simp [bytesRead], by simp, by simp [bytesQueued]⟩
       · rename_i t ht
-        have hkeep : ∀ (t' : Sess) (m : String → Option Pair), ({ w with sess := setSess w.sess j t', metrics := m } : World).sess[i]? = some s := by
+        have hkeep : ∀ (t' : Sess) (m : Reg), ({ w with sess := setSess w.sess j t', metrics := m } : World).sess[i]? = some s := by
           intro t' m; simp only [setSess]; rw [List.getElem?_set_ne hij]; exact hs
         unfold readOn
         split
@@ -798,7 +798,7 @@ theorem run_dead (w : World) (ops : List Acct.Op) (i : Nat) (hd : Dead w i) :
 
 def CtrOK (c : Counter) : Prop := c.ts = true ∧ sumD c.hist = c.value ∧ NonNeg c.hist
 
-def MetricsOK (m : String → Option Pair) : Prop := ∀ (u : String) (p : Pair), m u = some p → CtrOK p.1 ∧ CtrOK p.2
+def MetricsOK (m : Reg) : Prop := ∀ (u : String) (p : Pair), m.get u = some p → CtrOK p.1 ∧ CtrOK p.2
 
 theorem ctrOK_new : CtrOK (Counter.new true) := by
   refine ⟨rfl, rfl, ?_⟩
@@ -810,9 +810,9 @@ theorem ctrOK_add (c : Counter) (n : Nat) (now : Int) (h : CtrOK c) : CtrOK (Cou
   refine ⟨by rw [addWithTime_ts]; exact h1, ?_, addWithTime_nonNeg _ _ _ _ (Int.natCast_nonneg n) h3⟩
   rw [addWithTime_sum _ _ _ _ h1, addWithTime_value, h2]
 
-theorem metricsOK_register (m : String → Option Pair) (u : String) (h : MetricsOK m) : MetricsOK (register m u) := by
+theorem metricsOK_register (m : Reg) (u : String) (h : MetricsOK m) : MetricsOK (register m u) := by
   unfold register
-  cases hm : m u with
+  cases hm : m.get u with
   | some p => exact h
   | none =>
     intro v p hp
@@ -821,10 +821,10 @@ theorem metricsOK_register (m : String → Option Pair) (u : String) (h : Metric
     · cases hp; exact ⟨ctrOK_new, ctrOK_new⟩
     · exact h v p hp
 
-theorem metricsOK_addUp (m : String → Option Pair) (u : String) (n : Nat) (now : Int) (h : MetricsOK m) :
+theorem metricsOK_addUp (m : Reg) (u : String) (n : Nat) (now : Int) (h : MetricsOK m) :
     MetricsOK (addUp m u n now) := by
   unfold addUp
-  cases hm : m u with
+  cases hm : m.get u with
   | none => exact h
   | some q =>
     intro v p hp
@@ -833,10 +833,10 @@ theorem metricsOK_addUp (m : String → Option Pair) (u : String) (n : Nat) (now
     · cases hp; exact ⟨ctrOK_add _ _ _ (h u q hm).1, (h u q hm).2⟩
     · exact h v p hp
 
-theorem metricsOK_addDown (m : String → Option Pair) (u : String) (n : Nat) (now : Int) (h : MetricsOK m) :
+theorem metricsOK_addDown (m : Reg) (u : String) (n : Nat) (now : Int) (h : MetricsOK m) :
     MetricsOK (addDown m u n now) := by
   unfold addDown
-  cases hm : m u with
+  cases hm : m.get u with
   | none => exact h
   | some q =>
     intro v p hp
@@ -924,25 +924,25 @@ theorem run_policies (w : World) (ops : List Acct.Op) : (run w ops).1.policies =
 
 /-! ## isolation: what other users do never reaches `u`'s counters -/
 
-theorem register_other (m : String → Option Pair) (u v : String) (h : v ≠ u) : register m v u = m u := by
+theorem register_other (m : Reg) (u v : String) (h : v ≠ u) : (register m v).get u = m.get u := by
   unfold register
-  cases hm : m v with
+  cases hm : m.get v with
   | some p => rfl
   | none => simp [setMetrics, Ne.symm h]
 
-theorem addUp_other (m : String → Option Pair) (u v : String) (n : Nat) (now : Int) (h : v ≠ u) : addUp m v n now u = m u := by
+theorem addUp_other (m : Reg) (u v : String) (n : Nat) (now : Int) (h : v ≠ u) : (addUp m v n now).get u = m.get u := by
   unfold addUp
-  cases hm : m v with
+  cases hm : m.get v with
   | some p => simp [setMetrics, Ne.symm h]
   | none => rfl
 
-theorem addDown_other (m : String → Option Pair) (u v : String) (n : Nat) (now : Int) (h : v ≠ u) : addDown m v n now u = m u := by
+theorem addDown_other (m : Reg) (u v : String) (n : Nat) (now : Int) (h : v ≠ u) : (addDown m v n now).get u = m.get u := by
   unfold addDown
-  cases hm : m v with
+  cases hm : m.get v with
   | some p => simp [setMetrics, Ne.symm h]
   | none => rfl
 
-theorem step_foreign (w : World) (o : Acct.Op) (u : String) (hf : foreignOp w u o) : (step w o).1.metrics u = w.metrics u := by
+theorem step_foreign (w : World) (o : Acct.Op) (u : String) (hf : foreignOp w u o) : (step w o).1.metrics.get u = w.metrics.get u := by
   cases o with
   | newSess => rfl
   | input j user isOpen payload now =>
@@ -985,7 +985,7 @@ theorem step_foreign (w : World) (o : Acct.Op) (u : String) (hf : foreignOp w u 
     simp only [step]; split <;> rfl
 
 theorem run_foreign (w : World) (ops : List Acct.Op) (u : String) (hf : Foreign w u ops) :
-    (run w ops).1.metrics u = w.metrics u := by
+    (run w ops).1.metrics.get u = w.metrics.get u := by
   induction ops generalizing w with
   | nil => rfl
   | cons o rest ih => simp only [run]; rw [ih _ hf.2, step_foreign w o u hf.1]
